@@ -49,6 +49,9 @@ ASSUMPTIONS = [
     "controller for the same option after the answer or while the SETCONF is in flight (in flight + accepted only with the "
     "echo on, as Tor does); reads must equal what Tor holds once both have been delivered; reads after a rejection that no "
     "event followed are not judged; the rejected change is then replaced by an accepted one",
+    "class 'read-before-attach-finished': the object is built with TorConfig(proto) (what from_protocol() does) or as a "
+    "detached TorConfig() that is attach_protocol()'d, and options are read under any spelling before / while it attaches "
+    "(any outcome accepted then); after the attach every spelling must resolve",
     "class 'during-attach': CONF_CHANGED events are delivered between the GETCONF round trips of the attach (before or "
     "after the reply of the k-th GETCONF), for options already fetched and not yet fetched; the finished view is compared "
     "with what Tor holds then",
@@ -73,7 +76,7 @@ ANCHORS = [
 FLOORS = {
     "quick": {"evaluations": 300, "bootstrap_reads_compared": 5000, "events_delivered": 300, "event_reads_compared": 4000,
               "tracking_probes": 250, "name_lookups_compared": 10000, "socks_endpoint_checks": 600,
-              "attach_events_delivered": 100, "events_after_rejected_save": 60, "events_after_accepted_save": 30,
+              "attach_events_delivered": 100, "early_probe_reads": 300, "events_after_rejected_save": 60, "events_after_accepted_save": 30,
               "reach:txtorcon.torconfig:TorConfig._conf_changed": 400,
               "reach:txtorcon.torconfig:TorConfig._do_setup": 300,
               "reach:txtorcon.torconfig:TorConfig._get_defaults": 300},
@@ -235,6 +238,14 @@ def gen_case(rnd, mode):
             case["attach_events"] = [e for e in case["attach_events"] if e["at"] != i] + \
                 [{"at": i, "when": "after-reply", "items": [[table[i]["name"], v] for v in vals]}]
             case["attach_events"].sort(key=lambda e: e["at"])
+    if mode == "attach" or rnd.random() < 0.2:
+        # the application reads options (any spelling) from the object before / while it attaches
+        opts = rnd.sample(table, min(len(table), rnd.choice([1, 2, 3, 5])))
+        case["probe"] = {"route": rnd.choice(["ctor", "ctor", "attach_protocol"]),
+                         "spellings": {o["name"]: rnd.sample([o["name"], o["name"].lower(), o["name"].upper(),
+                                                              case["spell"][o["name"]]], rnd.choice([1, 2, 3]))
+                                       for o in opts},
+                         "phases": rnd.choice([["constructed"], ["attaching"], ["constructed", "attaching"]])}
     listy = [o for o in table if CT.is_listy(o["type"])]
     scalars = [o for o in table if not CT.is_listy(o["type"])]
     for i in range(nsteps):
@@ -303,7 +314,20 @@ class Run(object):
             try:
                 got = self.read(self.case["spell"][n])
             except Exception as e:
-                self.V(stage + "-read-raised-" + type(e).__name__, self.touch[n], {"option": n, "exc": repr(e)})
+                sp = self.case["spell"][n]
+                try:
+                    self.read(n)
+                    canonical_ok = sp != n
+                except Exception:
+                    canonical_ok = False
+                if canonical_ok:
+                    # the option is there under Tor's spelling: this is a name-matching failure
+                    how = "mixed"
+                    if sp in ((self.case.get("probe") or {}).get("spellings") or {}).get(n, []):
+                        how += "+read-before-attach-finished:" + self.case["probe"]["route"]
+                    self.V("name-lookup-raised-" + type(e).__name__, how, {"option": n, "as": sp, "stage": stage})
+                else:
+                    self.V(stage + "-read-raised-" + type(e).__name__, self.touch[n], {"option": n, "exc": repr(e)})
                 continue
             self.rec.count(counter)
             ok, why = CT.read_matches(got, o["type"], vals, self.dflt(n))
@@ -319,7 +343,10 @@ class Run(object):
                 base = self.read(n)
             except Exception:
                 continue
+            probed = ((self.case.get("probe") or {}).get("spellings") or {}).get(n, [])
             for how, sp in (("lower", n.lower()), ("upper", n.upper()), ("mixed", self.case["spell"][n])):
+                if sp in probed:
+                    how += "+read-before-attach-finished:" + self.case["probe"]["route"]
                 self.rec.count("name_lookups_compared")
                 try:
                     got = self.read(sp)
@@ -553,6 +580,22 @@ class Run(object):
                 fire(tor, (seen["getconf"], "after-reply"))
 
         hooks = dict(on_line=on_line, after_reply=after_reply) if pending_ev else {}
+        pr = case.get("probe")
+        if pr:
+            early = {"n": 0, "raised": 0}
+
+            def probe(cfg, phase):
+                if phase not in pr["phases"] and not (phase == "detached" and "constructed" in pr["phases"]):
+                    return
+                for n, sps in pr["spellings"].items():
+                    for sp in sps:
+                        early["n"] += 1
+                        try:
+                            getattr(cfg, sp)        # any outcome is fine now: the option may not be known yet
+                        except Exception:
+                            early["raised"] += 1
+            hooks.update(route=pr["route"], probe=probe)
+            rec.seen("attach_routes", pr["route"])
         cfg, fail, proto, tor, link = CT.boot(case["table"], no_defaults=case["no_defaults"], echo=case["echo"], **hooks)
         self.cfg, self.tor, self.link = cfg, tor, link
         self.boot_touch = dict(self.touch)
@@ -562,6 +605,9 @@ class Run(object):
                           {"failure": str(exc)[:300], "errors": self.logcap.take()[:3]}, case)
             return
         rec.count("bootstraps")
+        if pr:
+            rec.count("early_probe_reads", early["n"])
+            rec.count("early_probe_reads_that_raised", early["raised"])
         self.logged("bootstrap", "general")
         self.check_reads("bootstrap", "bootstrap_reads_compared")
         self.flush()
